@@ -199,7 +199,16 @@ func (r *Runner) runJob(job Job, st *Store, sol *Solver) (jr JobResult) {
 	q0, t0 := sol.Queries, sol.Time
 	work := [][]decision{nil}
 	for len(work) > 0 {
-		prefix := work[len(work)-1]
+		// shortest prefix first: when a budget cuts the exploration short, the
+		// shallow alternatives (loop exits after few iterations, early returns) have been covered
+		bi := len(work) - 1
+		for i := range work {
+			if len(work[i]) < len(work[bi]) {
+				bi = i
+			}
+		}
+		prefix := work[bi]
+		work[bi] = work[len(work)-1]
 		work = work[:len(work)-1]
 		if jr.Paths >= maxPaths {
 			jr.Undecided = append(jr.Undecided, "path bound exceeded")
